@@ -3460,13 +3460,9 @@ where
               // For type expression constraints, we would need to evaluate the type
               // For now, accept any tag value (this could be enhanced later)
             }
-          } else if *actual_tag > 0 {
-            self.add_error(format!(
-              "expected tagged data #6({}), got {:?}",
-              t, self.cbor
-            ));
-            return Ok(());
           }
+          // without a tag number (`#6`, `#6(type)`) any tag is admitted (RFC
+          // 8610 3.6)
 
           #[cfg(all(feature = "additional-controls", target_arch = "wasm32"))]
           let mut cv = CBORValidator::new(
